@@ -121,6 +121,21 @@ def buildIncoming (kindm : String) (tid : Nat) (sign corrupt : String) : Option 
     | ["2", k] => (b1.addIntegrity MsgFam.refHashes (keyCreds k) .sha256).toOption.map (·, true)
     | _ => some (b1, false)
   let bytes := b2.build
+  -- corrupt 5..8: an illegal-size MESSAGE-INTEGRITY-SHA256 that is a correct prefix of the HMAC under the signing key
+  let trunc : Option Nat := if corrupt == "5" then some 1 else if corrupt == "6" then some 8
+    else if corrupt == "7" then some 12 else if corrupt == "8" then some 18 else none
+  match trunc, sign.splitOn ":" with
+  | some _, ["2", "3"] =>
+    let i := bytes.length - 3
+    some (bytes.take i ++ [(bytes.getD i 0) ^^^ 0x40] ++ bytes.drop (i + 1))
+  | some n, ["2", k] =>
+    let ub := b1.build
+    let input := setLen ub (ub.length + 4 + n - 20)
+    let mac := (MsgFam.refHashes.hmacSha256 (hmacKey MsgFam.refHashes (keyCreds k)) input).take n
+    let ext := ub ++ enc16 0x001C ++ enc16 n ++ mac
+    let ext := ext ++ List.replicate ((4 - ext.length % 4) % 4) 0
+    some (setLen ext (ext.length - 20))
+  | _, _ =>
   let bogus : Option (Nat × Nat) :=
     if corrupt == "2" then some (0x0008, 4) else if corrupt == "3" then some (0x001C, 12)
     else if corrupt == "4" then some (0x001C, 36) else none
